@@ -224,6 +224,12 @@ def check_case(ck, rec, maxs):
     if t:
         ck.expect("split", "split(S, escape_pattern(T))", st, ("val", "list", rec["sp"]))
         ck.expect("split-join", "join(split(S, escape_pattern(T)), T)", st, ("val", "str", s))
+        # ... also when an earlier result of the same split was changed in place meanwhile (every split is a new list)
+        ck.expect("split-join-again", "do def a = split(S, escape_pattern(T)); append(a, T); a[0] = T + T; "
+                                      "join(split(S, escape_pattern(T)), T) end", st, ("val", "str", s))
+        ck.expect("lines-words-again", "do def n = length(lines(S)); def m = length(words(S)); def a = lines(S); append(a, T); "
+                                       "def b = words(S); append(b, T); length(lines(S)) == n and length(words(S)) == m end",
+                  st, ("val", "bool", 1))
         ck.expect("replace", "replace(S, T, R)", {"S": S, "T": T, "R": R}, ("val", "str", rec["rp"]))
         ck.expect("join", "join(P, T)", {"P": {"l": rec["sp"]}, "T": T}, ("val", "str", rec["jo"]))
     else:
